@@ -3,22 +3,41 @@ package main
 import (
 	"fmt"
 	"os"
-	"syscall"
 	"time"
 
 	"github.com/php-any/origami/parser"
 	"github.com/php-any/origami/runtime"
 )
 
-type cpuT time.Duration
-
-func cpuNow() time.Duration {
-	var ru syscall.Rusage
-	syscall.Getrusage(syscall.RUSAGE_SELF, &ru)
-	return time.Duration(ru.Utime.Nano() + ru.Stime.Nano())
-}
-
 func bench() {
+	if src := os.Getenv("VERIF_C01_STACK"); src != "" {
+		mode := 0
+		if len(src) > 5 && src[:5] == "<?php" {
+			mode = 1
+		}
+		fr, ex := fuelStack(src, mode, probe(len(src)))
+		fmt.Println("exhausted", ex, "depth", len(fr))
+		if os.Getenv("VERIF_C01_STACK_SERIES") != "" {
+			common := fr
+			for k := int64(1); k < 400; k++ {
+				f2, _ := fuelStack(src, mode, probe(len(src))+k)
+				common = commonPrefix(common, f2)
+				last := ""
+				if len(f2) > 0 {
+					last = f2[len(f2)-1]
+				}
+				fmt.Println(k, "depth", len(f2), "common", len(common), last)
+			}
+			fmt.Println("=>", common[len(common)-1])
+			os.Exit(0)
+		}
+		for i, f := range fr {
+			if i < 60 || i > len(fr)-40 {
+				fmt.Println(i, f)
+			}
+		}
+		os.Exit(0)
+	}
 	if os.Getenv("VERIF_C01_BENCH") == "" {
 		return
 	}
